@@ -538,6 +538,17 @@ class PolyFacet:
             if (q.startswith("numpy.") or q.startswith("math.")) and short in FN_NAMES:
                 return self.apply_fn(short, [self.of(a) for a in args], n)
             return self.node_atom(n)
+        if op == "MCall" and n.attr[0] in ("sum", "mean") and n.args and isinstance(n.attr, tuple) and len(n.attr) >= 3:
+            # x.sum(axis) is numpy.sum(x, axis)
+            margs = n.args[1:1 + n.attr[1]]
+            mkw = n.attr[2]
+            if "axis" in mkw or len(margs) == 1:
+                axn = n.args[1 + n.attr[1] + list(mkw).index("axis")] if "axis" in mkw else margs[0]
+                return self.psum(self.of(n.args[0]), self.g.vn(axn), kind=n.attr[0], node=n)
+            if not margs:
+                a = self.of(n.args[0])
+                aid = self.atom((n.attr[0], a.rat.key(), tuple(sorted(a.zc))), kind=n.attr[0], inner=a, node=n)
+                return Val(Rat(self.atom_poly(aid)))
         if op == "MCall" and n.attr[0] in ("copy", "astype", "squeeze", "reshape", "ravel", "flatten") and n.args:
             if n.attr[0] == "astype" and len(n.args) > 1:
                 t_ = n.args[1]
@@ -592,6 +603,13 @@ class PolyFacet:
                         node=node, args=tuple(av))
         return Val(Rat(self.atom_poly(aid)))
 
+    def psum(self, a: Val, axis_vn=None, kind="sum", node=None) -> Val:
+        """the reduction of `a` along the axis with value number `axis_vn` (default: the literal -1)"""
+        if axis_vn is None:
+            axis_vn = self.g.vn(self.I.const(-1))
+        aid = self.atom((kind, a.rat.key(), tuple(sorted(a.zc)), axis_vn), kind=kind, inner=a, node=node)
+        return Val(Rat(self.atom_poly(aid)))
+
     def pi(self) -> Val:
         return Val(Rat(self.atom_poly(self.atom(("pi",), kind="pi"))))
 
@@ -641,6 +659,8 @@ class PolyFacet:
                     a = av[0]
                     aid = self.atom(("abs", a.rat.key()), kind="abs", inner=a, node=None)
                     return Val(Rat(self.atom_poly(aid)), a.zc)
+                if f == "sum" and len(av) == 1:
+                    return self.psum(av[0])          # along the last axis
                 if f in FN_NAMES:
                     return self.apply_fn(f, av)
             raise ValueError(f"unsupported reference syntax: {_ast.dump(e)[:80]}")
